@@ -82,10 +82,14 @@ Section Checkers.
   Variable keyed : string -> bool.     (* the handler's request types are all hashed by (cluster, group) *)
 
   (* both accesses are made by group-keyed handlers to their own group: same group => same worker *)
+  (* (written with if-then-else so that vm_compute evaluates the string comparisons of [keyed] only when needed) *)
   Definition exempt (r1 r2 : row) : bool :=
-    group_scoped (r_class r1) && r_own r1 && r_own r2 && keyed (r_handler r1) && keyed (r_handler r2).
+    if group_scoped (r_class r1) then if r_own r1 then if r_own r2 then
+      if keyed (r_handler r1) then keyed (r_handler r2) else false
+    else false else false else false.
 
-  Definition pair_ok (r1 r2 : row) : bool := negb (conflict r1 r2) || common_lock r1 r2 || exempt r1 r2.
+  Definition pair_ok (r1 r2 : row) : bool :=
+    if conflict r1 r2 then (if common_lock r1 r2 then true else exempt r1 r2) else true.
 
   Definition race_free (tbl : list row) : bool :=
     forallb row_ok tbl && forallb (fun r1 => forallb (pair_ok r1) tbl) tbl.
